@@ -505,6 +505,13 @@ func (*ConfluentHeader) DecodeIndex(b []byte, maxLength int) ([]int, []byte, err
 	if maxLength > 0 && int(l) > maxLength { // index count is greater than expected
 		return nil, nil, ErrNotRegistered
 	}
+	// Every index takes at least one byte: with a count larger than the
+	// remaining input, reading the indices would run out of input. Fail the
+	// same way now, before a hostile count sizes the allocation below (panic:
+	// makeslice len out of range, or out of memory).
+	if l > int64(len(r.b)) {
+		return nil, nil, io.EOF
+	}
 	index := make([]int, l)
 	for i := range index {
 		idx, err := binary.ReadVarint(br)
